@@ -26,6 +26,7 @@ func init() {
 func runC09(c *Ctx) {
 	m := c.Root()
 	r := c.R
+	c09HeaderVerified(c, m, "C09.name-carries-begin")
 	we := m.Func("internal/counter", "weekEnd")
 	rot := m.Func("internal/counter", "file.rotate1")
 	// the span function: the one function reachable from rotate1 that constructs times
@@ -315,4 +316,46 @@ func isTestSupport(fn *ssa.Function) bool {
 		}
 	}
 	return false
+}
+
+// c09HeaderVerified: a process attaches to an existing counter file only if the file's header is
+// byte for byte the header it would have written itself. The recorded end of the week is in the
+// header but not in the file name, so anything weaker lets a process count into a file whose
+// recorded end differs from the end it rotates at.
+func c09HeaderVerified(c *Ctx, m *Module, rule string) {
+	r := c.R
+	om := m.Func("internal/counter", "openMapped")
+	isFullHeader := func(v ssa.Value) bool {
+		return describe(v) == "internal/counter.mappedHeader(param:meta)#0"
+	}
+	n := 0
+	for _, ex := range exitPaths(om) {
+		if len(ex.vals) != 2 || !isNilConst(ex.vals[1]) || isNilConst(ex.vals[0]) {
+			continue
+		}
+		n++
+		okHdr := hasFact(ex.facts, func(f Fact) bool {
+			cl, ok := f.Cond.(*ssa.Call)
+			if !ok || !f.Pol {
+				return false
+			}
+			switch calleeName(&cl.Call) {
+			case "bytes.HasPrefix":
+				return isFullHeader(cl.Call.Args[1]) && isMappedBytes(cl.Call.Args[0])
+			case "bytes.Equal":
+				return (isFullHeader(cl.Call.Args[0]) && isMappedBytes(cl.Call.Args[1])) ||
+					(isFullHeader(cl.Call.Args[1]) && isMappedBytes(cl.Call.Args[0]))
+			}
+			return false
+		})
+		r.Check(rule, fmt.Sprintf("openMapped/success #%d only for a file whose whole header matches", n), m.Pos(ex.ret.Pos()), okHdr,
+			"the mapped bytes must start with mappedHeader(meta) — magic, length AND metadata (TimeBegin/TimeEnd): comparing less attaches to a file of another week end")
+	}
+	r.Check(rule, "openMapped/success exits enumerated", m.Pos(om.Pos()), n >= 1, fmt.Sprintf("%d", n))
+}
+
+// isMappedBytes: the bytes of the mapping just made (m.mapping.Data, or the Data of memmap's result).
+func isMappedBytes(v ssa.Value) bool {
+	d := describe(v)
+	return strings.HasSuffix(d, ".Data") && (strings.Contains(d, "mapping") || strings.Contains(d, "memmap"))
 }
